@@ -97,6 +97,7 @@ def run_history(hist, header, viol):
     expected = []
     attempted = []
     raised = False
+    pending_must = None
     b = base()
     for i, (addr, ln) in enumerate(hist):
         data = b[i * 1021:i * 1021 + ln]
@@ -113,11 +114,21 @@ def run_history(hist, header, viol):
             break
         else:
             if cls == "must":
-                viol.append({"key": "ips:unrepresentable-address-accepted",
-                             "msg": f"write #{i} ({addr:#x}, len {ln}, header={header}) cannot be represented by IPS but did not raise; history {hist}"})
-                return 1, "UNREPRESENTABLE-ACCEPTED"
+                pending_must = (i, addr, ln)  # acceptable only if the writer still refuses it in end()
             expected.append((addr + hdr, data))
-    w.end()
+    try:
+        w.end()
+    except Exception as e:  # noqa: BLE001
+        worst = max((classify(a + hdr, ln) for a, ln in hist), key=["ok", "may", "must"].index, default="ok")
+        if worst == "ok":
+            viol.append({"key": "ips:representable-write-refused", "msg": f"end() raised {e!r} for history {hist} header={header}"})
+            return 1, "REFUSED"
+        return 1, "refused-as-required"
+    if pending_must is not None:
+        i, addr, ln = pending_must
+        viol.append({"key": "ips:unrepresentable-address-accepted",
+                     "msg": f"write #{i} ({addr:#x}, len {ln}, header={header}) cannot be represented by IPS but was never refused; history {hist}"})
+        return 1, "UNREPRESENTABLE-ACCEPTED"
     out = f.getvalue()
     desc = f"history {[(hex(a), ln) for a, ln in hist]} header={header}"
     try:
